@@ -207,6 +207,14 @@ def digest(x):
     return hashlib.sha1(repr(snapshot(x)).encode()).hexdigest()[:16]
 
 
+def describe_index(ix):
+    d = {"chargemap": {repr(c): s for c, s in ix.chargemap.items()}, "dual": bool(ix.dual), "fused": ix.subinfo is not None}
+    if ix.subinfo is not None:
+        d["sub"] = [describe_index(s) for s in ix.subinfo.indices]
+        d["extents"] = {repr(c): {repr(k): v for k, v in e.items()} for c, e in ix.subinfo.extents.items()}
+    return d
+
+
 def describe(x, values=False):
     """JSON-able description of a value (for samples / witnesses)."""
     if is_array(x):
@@ -214,10 +222,7 @@ def describe(x, values=False):
             "cls": type(x).__name__,
             "sym": R.symname(x),
             "charge": repr(x.charge),
-            "indices": [
-                {"chargemap": {repr(c): s for c, s in ix.chargemap.items()}, "dual": bool(ix.dual), "fused": ix.subinfo is not None}
-                for ix in x.indices
-            ],
+            "indices": [describe_index(ix) for ix in x.indices],
             "sectors": [repr(s) for s in x.blocks],
         }
         if is_fermionic(x):
